@@ -240,6 +240,7 @@ func runFaults(t *testing.T, fx *fixtures, c verifCase, w *bufio.Writer) {
 		rid := 0
 
 		for _, line := range c.lines {
+			verifTick()
 			if line == "" || strings.HasPrefix(line, "#") {
 				fmt.Fprintln(w, line)
 				continue
